@@ -230,6 +230,8 @@ func dirName(d string) string {
 	switch {
 	case c == '\n':
 		return "~newline"
+	case c == '|':
+		return "~page"
 	case c < 0x21 || 0x7e < c:
 		return fmt.Sprintf("~\\x%02x", c)
 	}
